@@ -140,6 +140,8 @@ func init() {
 	}
 	intrinsics[v+"Reach"] = func(fr *frame, args []value) value {
 		fr.i.run.res.AssertsSeen["reach:"+args[0].(string)]++
+		fr.i.run.res.AssertsOK["reach:"+args[0].(string)]++
+		fr.i.run.res.Trivial++
 		return nil
 	}
 	intrinsics[v+"Freeze"] = func(fr *frame, args []value) value {
